@@ -146,3 +146,55 @@ pub struct KeyIdK { pub _opaque: u64 }
 // add_key_to_repo: wraps the key under the password (KeyFile::generate, unit kf_generate) and stores the key file
 #[verifier::external_body]
 pub fn vadd_key_to_repo(repo: &VRepoK, opts: &KeyOptionsK, pass: &str, key: Key) -> RusticResult<KeyIdK> { unimplemented!() }
+
+// ---- adding a key: add_key_to_repo / add_current_key_to_repo ----
+// what unit kf_generate PROVES about the key file it returns: the password opens it and yields this key
+pub open spec fn opens_with(kf: KeyFileK, pw: Seq<u8>, key: AeadKey) -> bool {
+    kf.data@.len() >= 16 && ({
+        let w = wrapping_key(kf, pw);
+        AEAD_OK(w, kf.data@.subrange(0, 16), kf.data@.subrange(16, kf.data@.len() as int))
+        && MK_PARSE(PT(w, kf.data@.subrange(0, 16), kf.data@.subrange(16, kf.data@.len() as int))) == key
+    })
+}
+// KeyFile::generate seen through its contract (proved as unit kf_generate)
+#[verifier::external_body]
+pub fn vkeyfile_generate(key: Key, passwd: &PasswdB) -> (r: RusticResult<KeyFileK>)
+    ensures r matches Ok(kf) ==> opens_with(kf, passwd.bytes@, key.0),
+{ unimplemented!() }
+// serde_json::to_vec(&keyfile): the stored form of a key file (uninterpreted; its parse is the inverse: ASSUMED)
+pub uninterp spec fn KF_SER(kf: KeyFileK) -> Seq<u8>;
+#[verifier::external_body]
+pub fn vkeyfile_to_json(kf: &KeyFileK) -> (r: Result<Vec<u8>, SerdeErr>) ensures r matches Ok(v) ==> v@ == KF_SER(*kf), { unimplemented!() }
+pub uninterp spec fn SHA256K(d: Seq<u8>) -> Id;
+// KeyId::from(hash(&data))
+#[verifier::external_body]
+pub fn vkeyid_of_hash(data: &Vec<u8>) -> (r: KeyId) ensures r == KeyId(SHA256K(data@)), { unimplemented!() }
+// "a key file with these bytes is stored under this id" -- only the backend write produces it
+pub uninterp spec fn KEY_STORED(id: KeyId, bytes: Seq<u8>) -> bool;
+pub struct VBeK { pub _opaque: u64 }
+impl VBeK {
+    // repo.be.write_bytes(FileType::Key, &id, false, data.into()): key files are stored as they are (not encrypted again).
+    // PRECONDITION: the file is named by the hash of its bytes (so a substituted key file is detectable)
+    #[verifier::external_body]
+    pub fn write_bytes(&self, tpe: FileType, id: &KeyId, cacheable: bool, data: Vec<u8>) -> (r: RusticResult<()>)
+        requires tpe is Key ==> *id == KeyId(SHA256K(data@)),
+        ensures r is Ok && tpe is Key ==> KEY_STORED(*id, data@),
+    { unimplemented!() }
+}
+pub struct VDbeK2 { pub k: Key }
+impl VDbeK2 {
+    pub fn key(&self) -> (r: &Key) ensures *r == self.k, { &self.k }
+}
+// the repository as the key commands see it: the raw backend (key files) and the decrypting backend holding the master key
+pub struct VRepoK2 { pub be: VBeK, pub dbe: VDbeK2 }
+impl VRepoK2 {
+    pub fn dbe(&self) -> (r: &VDbeK2) ensures *r == self.dbe, { &self.dbe }
+}
+// the postcondition of add_key_to_repo (unit add_key_to_repo), as add_current_key_to_repo sees it
+pub open spec fn key_added(pw: Seq<u8>, key: AeadKey, id: KeyId) -> bool {
+    exists|kf: KeyFileK| opens_with(kf, pw, key) && #[trigger] KEY_STORED(id, KF_SER(kf)) && id == KeyId(SHA256K(KF_SER(kf)))
+}
+#[verifier::external_body]
+pub fn vadd_key_to_repo2(repo: &VRepoK2, opts: &KeyOptionsK, pass: &PasswdB, key: Key) -> (r: RusticResult<KeyId>)
+    ensures r matches Ok(id) ==> key_added(pass.bytes@, key.0, id),
+{ unimplemented!() }
